@@ -14,10 +14,15 @@ from ..core import astq
 from ..core.program import norm
 
 ZERO, POS, NEG, NONNEG, NONPOS, UNIT, TOP, BOT = "ZERO", "POS", "NEG", "NONNEG", "NONPOS", "UNIT", "TOP", "BOT"
+PUNIT = "PUNIT"  # (0, 1]: both strictly positive and within the unit interval
+
+
+def is_pos(s: str) -> bool:
+    return s in (POS, PUNIT)
 
 
 def _ge0(s: str) -> bool:
-    return s in (ZERO, POS, NONNEG, UNIT)
+    return s in (ZERO, POS, NONNEG, UNIT, PUNIT)
 
 
 def _le0(s: str) -> bool:
@@ -29,9 +34,11 @@ def join(a: Optional[str], b: Optional[str]) -> str:
         return b or BOT
     if b is None or b == BOT or a == b:
         return a
-    if {a, b} <= {ZERO, POS, NONNEG, UNIT}:
-        if {a, b} <= {ZERO, UNIT} or {a, b} == {UNIT}:
+    if {a, b} <= {ZERO, POS, NONNEG, UNIT, PUNIT}:
+        if {a, b} <= {ZERO, UNIT, PUNIT}:
             return UNIT
+        if {a, b} <= {POS, PUNIT}:
+            return POS
         return NONNEG
     if {a, b} <= {ZERO, NEG, NONPOS}:
         return NONPOS
@@ -41,7 +48,7 @@ def join(a: Optional[str], b: Optional[str]) -> str:
 def neg(s: str) -> str:
     if s == BOT:
         return BOT
-    return {ZERO: ZERO, POS: NEG, NEG: POS, NONNEG: NONPOS, NONPOS: NONNEG, UNIT: NONPOS}.get(s, TOP)
+    return {ZERO: ZERO, POS: NEG, NEG: POS, NONNEG: NONPOS, NONPOS: NONNEG, UNIT: NONPOS, PUNIT: NEG}.get(s, TOP)
 
 
 def add(a: str, b: str) -> str:
@@ -52,7 +59,7 @@ def add(a: str, b: str) -> str:
     if b == ZERO:
         return a
     if _ge0(a) and _ge0(b):
-        return POS if POS in (a, b) else NONNEG
+        return POS if (is_pos(a) or is_pos(b)) else NONNEG
     if _le0(a) and _le0(b):
         return NEG if NEG in (a, b) else NONPOS
     return TOP
@@ -63,14 +70,16 @@ def mul(a: str, b: str) -> str:
         return BOT
     if ZERO in (a, b):
         return ZERO
-    if a == UNIT and b == UNIT:
+    if a == PUNIT and b == PUNIT:
+        return PUNIT
+    if a in (UNIT, PUNIT) and b in (UNIT, PUNIT):
         return UNIT
     if _ge0(a) and _ge0(b):
-        return POS if (a == POS and b == POS) else NONNEG
+        return POS if (is_pos(a) and is_pos(b)) else NONNEG
     if _le0(a) and _le0(b):
         return POS if (a == NEG and b == NEG) else NONNEG
     if (_ge0(a) and _le0(b)) or (_le0(a) and _ge0(b)):
-        return NEG if {a, b} == {POS, NEG} else NONPOS
+        return NEG if (NEG in (a, b) and (is_pos(a) or is_pos(b))) else NONPOS
     return TOP
 
 
@@ -78,13 +87,17 @@ def div(a: str, b: str) -> str:
     """a / b; division by something that may be zero keeps the sign (value may be inf/NaN: taint's job)."""
     if BOT in (a, b):
         return BOT
-    if b in (POS,):
-        return a if a != UNIT else NONNEG
+    if is_pos(b):
+        return {UNIT: NONNEG, PUNIT: POS}.get(a, a)
     if b in (NEG,):
         return neg(a)
     if b in (NONNEG, UNIT):
-        return {POS: NONNEG}.get(a, a) if _ge0(a) or _le0(a) else TOP
+        return {POS: NONNEG, PUNIT: NONNEG, UNIT: NONNEG}.get(a, a) if _ge0(a) or _le0(a) else TOP
     return TOP
+
+
+def S_POS_IN(vs):
+    return any(is_pos(v) for v in vs)
 
 
 _PASS = {"reshape", "view", "unsqueeze", "squeeze", "expand_dims", "transpose", "permute", "to", "float", "astype", "clone", "copy",
@@ -149,7 +162,7 @@ class Sign:
             if isinstance(v, bool):
                 return UNIT
             if isinstance(v, (int, float)):
-                return ZERO if v == 0 else (UNIT if 0 < v <= 1 else (POS if v > 0 else NEG))
+                return ZERO if v == 0 else (PUNIT if 0 < v <= 1 else (POS if v > 0 else NEG))
             return TOP
         if isinstance(e, ast.Name):
             return self.of_name(e.id)
@@ -175,7 +188,7 @@ class Sign:
                 k = astq.const_value(e.right)
                 if isinstance(k, int) and k % 2 == 0:
                     b = self.of(e.left)
-                    return POS if b in (POS, NEG) else (UNIT if b == UNIT else NONNEG)
+                    return POS if b in (POS, NEG) else (b if b in (UNIT, PUNIT) else NONNEG)
                 b = self.of(e.left)
                 return b if _ge0(b) else TOP
             a, b = self.of(e.left), self.of(e.right)
@@ -247,6 +260,10 @@ class Sign:
                 return base
             if name in _PASS:
                 return self.of(recv if recv is not None else args[0]) if (recv is not None or args) else TOP
+            if name == "maximum" and len(args) >= 2:
+                vs = [self.of(a) for a in args[:2]]
+                if S_POS_IN(vs):
+                    return POS
             if name in _REDUCE_KEEP:
                 xs = ([recv] if recv is not None else []) + [a for a in args if not isinstance(a, ast.Constant)]
                 if name == "where" and len(args) == 3:
@@ -254,8 +271,8 @@ class Sign:
                 out = None
                 for x in xs:
                     out = join(out, self.of(x))
-                if name in ("sum", "nansum", "prod") and out == UNIT:
-                    return NONNEG
+                if name in ("sum", "nansum", "prod") and out in (UNIT, PUNIT):
+                    return NONNEG if out == UNIT else POS
                 return out or TOP
             if name in ("float", "int", "len"):
                 return NONNEG if name == "len" else (self.of(args[0]) if args else TOP)
